@@ -646,7 +646,7 @@ func NormalizeURI(s string) string {
 }
 
 func isHex(c byte) bool {
-	return 'a' <= c && c <= 'f' || 'A' <= c && c <= 'f' || isASCIIDigit(c)
+	return 'a' <= c && c <= 'f' || 'A' <= c && c <= 'F' || isASCIIDigit(c)
 }
 
 func urlHexDigit(x byte) byte {
